@@ -51,6 +51,18 @@ func describeOperand(v ssa.Value) string {
 	if k, ok := constInt(v); ok {
 		return fmt.Sprintf("0x%X", k)
 	}
+	// a field held in a private named type and converted where it is encoded (packetID -> uint16) is still that field
+	for {
+		if cv, ok := v.(*ssa.Convert); ok {
+			v = cv.X
+			continue
+		}
+		if ct, ok := v.(*ssa.ChangeType); ok {
+			v = ct.X
+			continue
+		}
+		break
+	}
 	if ld, ok := v.(*ssa.UnOp); ok && ld.Op == token.MUL {
 		if fa, ok := ld.X.(*ssa.FieldAddr); ok {
 			_, fld := fieldOf(fa)
